@@ -94,8 +94,12 @@ def view_of(case, H):
         import networkx as nx
         G = hypergraph_to_bipartite(H, integer_ids=True)
         nodes = list(G.nodes)
-        ids = list(range(1, len(nodes) + 1))
-        random.Random(case.get("perm_seed", 0)).shuffle(ids)
+        prng = random.Random(case.get("perm_seed", 0))
+        if case.get("perm_seed", 0) % 2:            # identifiers of one to four digits (string order, padded order, numeric order all differ)
+            ids = prng.sample(range(1, 5000), len(nodes))
+        else:
+            ids = list(range(1, len(nodes) + 1))
+            prng.shuffle(ids)
         mp = {u: (k if v == "bip_perm" else "n%d" % k) for u, k in zip(nodes, ids)}
         return nx.relabel_nodes(G, mp, copy=True)
     return H
@@ -578,6 +582,11 @@ def gen_cases(tier, rng):
     cases += G.textbook()
     for k in range(40 if tier == "quick" else 400):
         cases.append(big_net(rng, k))
+    if tier != "quick":
+        # three-digit node ids / indices (one case: about 1.5 min of vm_compute)
+        c101 = G.net_from_strings(["X%d >> X%d" % (i, i % 101 + 1) for i in range(1, 102)], "big", name="big/cycle-101")
+        c101["view"] = "bip_int"
+        cases.append(c101)
     cases += G.exhaustive_alphabet(2, rng, "exh-alphabet<=2")
     if tier == "quick":
         nrand, ncons, nsw = 500, 250, 400
